@@ -69,6 +69,56 @@ fn confirm_in_fresh_process(path: &str) -> Option<i32> {
     }
 }
 
+/// `gsim minimise <replay-file> <budget-s>`: reduces the scenario of a replay file and keeps
+/// `<replay-file>.min` up to date with the smallest scenario confirmed so far.
+pub fn minimise_file(path: &str, budget_s: u64) -> i32 {
+    let Ok(text) = std::fs::read_to_string(path) else { return 2 };
+    let Ok(rf) = serde_json::from_str::<ReplayFile>(&text) else { return 2 };
+    let Some(e) = engine_by_key(&rf.engine) else { return 2 };
+    let out = format!("{path}.min");
+    let tmp = format!("{path}.min.tmp");
+    let _ = std::fs::remove_file(&out);
+    let (property, engine, seed, run) = (rf.property.clone(), rf.engine.clone(), rf.seed, rf.run);
+    let (_, _, _, b, _) = e.minimise_dyn(rf.scenario, rf.violation, Duration::from_secs(budget_s), &mut |sc, v, steps, size| {
+        let m = serde_json::json!({
+            "replay": ReplayFile { property: property.clone(), engine: engine.clone(), seed, run, violation: v.clone(), scenario: sc.clone(), sequence: None },
+            "steps": steps,
+            "size": size,
+        });
+        // (atomically: the parent reads whatever is there when this process ends, however it ends)
+        if std::fs::write(&tmp, serde_json::to_vec(&m).unwrap()).is_ok() {
+            let _ = std::fs::rename(&tmp, &out);
+        }
+    });
+    println!("{b}");
+    0
+}
+
+/// (scenario, violation, steps, size before, size after, exit status of the minimiser)
+fn minimise_in_fresh_process(path: &str, budget: Duration) -> Option<(Value, Violation, u64, usize, usize, Option<i32>)> {
+    let exe = std::env::current_exe().unwrap();
+    let out = Command::new(exe)
+        .arg("minimise")
+        .arg(path)
+        .arg(budget.as_secs().to_string())
+        .stdin(Stdio::null())
+        .stderr(Stdio::null())
+        .output()
+        .ok()?;
+    use std::os::unix::process::ExitStatusExt;
+    let status = out.status.code().or_else(|| out.status.signal().map(|s| 128 + s));
+    let min = format!("{path}.min");
+    let text = std::fs::read_to_string(&min).ok();
+    let _ = std::fs::remove_file(&min);
+    let _ = std::fs::remove_file(format!("{path}.min.tmp"));
+    let m: Value = serde_json::from_str(&text?).ok()?;
+    let rf: ReplayFile = serde_json::from_value(m.get("replay")?.clone()).ok()?;
+    let after = m.get("size")?.as_u64()? as usize;
+    let steps = m.get("steps")?.as_u64()?;
+    let before = String::from_utf8_lossy(&out.stdout).trim().parse::<usize>().unwrap_or(0);
+    Some((rf.scenario, rf.violation, steps, before, after, status))
+}
+
 /// Runs one engine for one property: seeded batch on worker processes, then
 /// (on a violation) minimisation, replay file, and a replay of that file in a
 /// fresh process.
@@ -147,8 +197,22 @@ pub fn run_part(prop: &str, key: &str, seed: u64, runs: u64, tier: Tier, cap_s: 
         eprintln!("[{tag}] run {idx} violated: {} — {}", v.class, v.detail);
         let (v0, sc0) = (v.clone(), sc.clone());
         let budget = Duration::from_secs(if tier == Tier::Quick { 40 } else { 120 });
-        let (msc, mv, steps, before, after) = e.minimise_dyn(sc, v, budget);
-        eprintln!("[{tag}] minimised in {steps} steps: size {before} -> {after}");
+        // (in a process of its own: a reduced scenario may make the library kill the process —
+        // stack overflow, abort —, which must not take the report with it)
+        let p0 = write_replay(prop, key, seed, idx, &v, &sc);
+        let (msc, mv) = match minimise_in_fresh_process(&p0, budget) {
+            Some((msc, mv, steps, before, after, status)) => {
+                eprintln!("[{tag}] minimised in {steps} steps: size {before} -> {after}");
+                if status != Some(0) {
+                    eprintln!("[{tag}] note: the minimiser's process ended abnormally ({status:?}) on a later candidate; keeping the smallest scenario it had confirmed");
+                }
+                (msc, mv)
+            }
+            None => {
+                eprintln!("[{tag}] note: no reduction was confirmed (a candidate may have ended the minimiser's process); reporting the scenario as found");
+                (sc, v)
+            }
+        };
         let path = write_replay(prop, key, seed, idx, &mv, &msc);
         match confirm_in_fresh_process(&path) {
             Some(1) => violation = Some((path, mv)),
